@@ -71,7 +71,32 @@ def run(ctx, scn):
     src, expr_lines = render(steps)
     out = []
     try:
-        tree = XSH.execer.parse(src, ctx=set(scn["session"]))
+        # the decision must depend on this input and this session only: compile something else first,
+        # in a namespace that binds every name, on the same execer
+        ex = XSH.execer
+        warm = {n: 1 for n in ("a", "b")}
+        ex.compile("a\nb\n", glbs=warm, locs=warm, mode="exec", filename="<verif-warm>")
+        # go through Execer.compile (which derives the context from the namespaces) and capture the tree
+        captured = {}
+        real_parse = ex.parse
+
+        def spy(*a, **k):
+            t = real_parse(*a, **k)
+            captured.setdefault("tree", t)
+            return t
+
+        ns = {n: 1 for n in scn["session"]}
+        ex.parse = spy
+        try:
+            ex.compile(src, glbs=ns, locs=ns, mode="exec", filename="<verif-scope>")
+        except SyntaxError:
+            # CPython's own compile stage rejects some generated programs (e.g. `global` after use);
+            # the Python-vs-command decisions were already taken by the parse that succeeded
+            if "tree" not in captured:
+                raise
+        finally:
+            del ex.parse
+        tree = captured["tree"]
         cmd_lines = set()
         for node in ast.walk(tree):
             if isinstance(node, ast.stmt) and hasattr(node, "lineno"):
